@@ -118,6 +118,7 @@ func shapeScenarioRuns(name string, d *shapeDesc, kinds []int, mk func(root *spe
 		}
 		h = newH(root)
 		h.menu = menu
+		h.topDown = rotationOf(name)%2 == 1 // half of the scenarios wire nested flows top-down
 		if setup != nil {
 			setup(h)
 		}
